@@ -79,7 +79,18 @@ func toErr(e lib.ErrorI) error {
 
 // Join connects a (outbound side) and b (inbound side) with the real AddPeer over net.Pipe.
 func Join(a, b *Node) error {
+	_, _, err := JoinPipes(a, b)
+	return err
+}
+
+// JoinPipes is Join returning the two pipe ends (closing one simulates a network failure: both
+// connections are then torn down from inside their own receive services).
+func JoinPipes(a, b *Node) (net.Conn, net.Conn, error) {
 	c1, c2 := net.Pipe()
+	return c1, c2, join(a, b, c1, c2)
+}
+
+func join(a, b *Node, c1, c2 net.Conn) error {
 	errs := make(chan error, 2)
 	go func() {
 		errs <- toErr(a.AddPeer(c1, &lib.PeerInfo{Address: &lib.PeerAddress{PublicKey: b.Pub, NetAddress: "pipe-to-" + fmt.Sprintf("%x", b.Pub[:4]), PeerMeta: &lib.PeerMeta{}}, IsOutbound: true}, false, true))
